@@ -112,7 +112,7 @@ class Gen:
         base_w = {
             "compile_str": 5.0, "compile_callable": 1.5, "compile_defs": 2.5, "compile_param": 1.2, "param_defs": 1.0,
             "to_logicfun": 0.8, "bind": 3.0, "oraclize": 2.0, "algo": 3.0, "secret_oracle": 0.4,
-            "export": 2.0, "decompile": 1.0, "truth_table": 1.5, "header": 0.3, "repr": 0.3, "again": 1.5, "forget": 0.8, "canary": 1.2, "variant": 0.8, "recompile": 0.6, "decode": 0.5, "custom": 0.35, "param_churn": 0.5,
+            "export": 2.0, "decompile": 1.0, "truth_table": 1.5, "header": 0.3, "repr": 0.3, "again": 1.5, "forget": 0.8, "canary": 1.2, "variant": 0.8, "recompile": 0.6, "decode": 0.5, "custom": 0.35, "param_churn": 0.5, "bind_siblings": 0.6,
         }
         # swarm: every run disables / boosts a random subset of op kinds
         self.w = {k: v * r.choice([0, 0.5, 1, 1, 2, 3]) for k, v in sorted(base_w.items())}
@@ -603,6 +603,25 @@ class Gen:
                 self.add("forget", {"target": u}, [u], s, "none")
                 self.pool = [x for x in self.pool if x["id"] != u]
                 self.forgotten.add(u)
+        return True
+
+    def b_bind_siblings(self, s):
+        """bind one unbound function twice to the same values and recompile one of the two results with
+        other options: the sibling (and a later identical bind) must not notice"""
+        r = self.r
+        c = self.cands(lambda e: e["rk"] == "unbound")
+        if not c:
+            return False
+        e = self.pick(c, s)
+        params = e["meta"]["params"]
+        vals = {n: gen_value(t, r) for n, t in params}
+        order = [n for n, _ in params]
+        m = dict(e["meta"])
+        b1 = self.add("bind", {"target": e["id"], "values": vals, "order": order}, [e["id"]], s, "qf", m, e["name"])
+        self.add("bind", {"target": e["id"], "values": vals, "order": order}, [e["id"]], s, "qf", dict(m), e["name"])
+        self.add("recompile", {"target": b1, "uncompute": False}, [b1], s, "none")
+        if r.random() < 0.5:
+            self.add("bind", {"target": e["id"], "values": vals, "order": order}, [e["id"]], s, "qf", dict(m), e["name"])
         return True
 
     def b_recompile(self, s):
